@@ -226,6 +226,7 @@ class Shaper(object):
         self._class_min_iris = None
         self._class_shexer = None
         self._shape_list = None
+        self._acceptance_threshold_of_shape_list = None
 
     def profile_graph(self, string_output=False, output_file=None, verbose=False):
         self._check_correct_output_params(string_output, output_file, None)
@@ -262,9 +263,11 @@ class Shaper(object):
             self._launch_instance_tracker(verbose=verbose)
         if self._profile is None:
             self._launch_class_profiler(verbose=verbose)
-        if self._shape_list is None:
+        if self._shape_list is None or acceptance_threshold != self._acceptance_threshold_of_shape_list:
+            self._class_shexer = None  # The shapes must be computed (again) for the threshold of this call
             self._launch_class_shexer(acceptance_threshold=acceptance_threshold,
                                       verbose=verbose)
+            self._acceptance_threshold_of_shape_list = acceptance_threshold
         log_msg(verbose=verbose,
                 msg="Building_output...")
 
